@@ -39,6 +39,8 @@ func largeGen(r *kv.Rand) *cacheGen {
 		}
 	}
 	g.keys = g.keys[:5]
+	// two keys whose namespace/name join to the same "t/d/p": a cache is keyed by the pair, not by the joined string
+	g.keys = append(g.keys, [2]string{"t", "d/p"}, [2]string{"t/d", "p"})
 	for v := -2; v <= 50; v++ {
 		g.vers = append(g.vers, strconv.Itoa(v))
 	}
